@@ -1,7 +1,261 @@
-//! C13 driver (stub: not built yet).
-use crate::trace::Args;
+//! C13 driver: the block sieve (`sieve::Sieve`) through its public API only
+//! (`new, sieve_block, smooths, next_block, rehash, recycle`; plus the read-only accessor for the
+//! documented overflow counters of the bucket tables).
+//!
+//! A case is one factor base and a sequence of sieves over it (fresh, recycled, rehashed).  Events,
+//! in order, all carrying `case`:
+//!   fb      primes of the factor base (once per case)
+//!   new     r1, r2 (root tables, position 0 = start of the interval), nblocks, offset, recycled, novf
+//!   rehash  r1, r2, novf                      (classical sieve: next large block, block number reset)
+//!   block   b (block number), thr, root, nrep (number of reports), reports = [[i, [prime indices]]]
+//!           (a sample of the reports, always including the first and the last one)
+//! Nothing is judged here: spec/sieve/SieveTrace.tla evaluates ReportComplete over all primes.
 
-pub fn run(_args: &Args) -> i32 {
-    eprintln!("driver c13 not built yet");
-    2
+use bnum::cast::CastFrom;
+use rand::rngs::StdRng;
+use rand::Rng;
+use serde_json::{json, Value};
+
+use yamaquasi::fbase::FBase;
+use yamaquasi::sieve::{self, Sieve, SieveRecycle, BLOCK_SIZE};
+use yamaquasi::{Int, Uint};
+
+use crate::gen::{rand_bits, rng_for};
+use crate::trace::*;
+
+#[derive(Clone, Copy, PartialEq)]
+enum Roots {
+    /// roots of x^2 - n: +-sqrt(n) shifted by a random start (a real polynomial)
+    Real,
+    /// every root 0 (second root 1 for the bucket classes, which need two distinct roots)
+    Zero,
+    /// every root p-1 (p-2 for the second root of the bucket classes)
+    Top,
+    /// r1 = r2 (single root) for every small prime, random
+    Single,
+    /// uniformly random roots
+    Random,
+    /// all large primes hit the same 256-wide bucket: forces the counted overflow
+    Crowd,
+}
+
+fn make_roots(rng: &mut StdRng, fb: &FBase, kind: Roots) -> (Vec<u32>, Vec<u32>) {
+    let mut r1 = vec![];
+    let mut r2 = vec![];
+    let shift: u64 = rng.gen_range(0..1 << 40);
+    for i in 0..fb.len() {
+        let p = fb.p(i);
+        let big = p >= 1 << 15; // bucket classes: two distinct roots required
+        let (a, b) = match kind {
+            Roots::Real => {
+                let s = fb.r(i) as u64;
+                let sh = shift % p as u64;
+                let a = ((s + p as u64 - sh) % p as u64) as u32;
+                let b = ((2 * p as u64 - s - sh) % p as u64) as u32;
+                (a, b)
+            }
+            Roots::Zero => (0, if big { 1 } else { 0 }),
+            Roots::Top => (p - 1, if big { p - 2 } else { p - 1 }),
+            Roots::Single => {
+                let a = rng.gen_range(0..p);
+                (a, if big { (a + 1 + rng.gen_range(0..p - 1)) % p } else { a })
+            }
+            Roots::Random => (rng.gen_range(0..p), rng.gen_range(0..p)),
+            Roots::Crowd => {
+                if big {
+                    let a = 1000 + rng.gen_range(0..100);
+                    (a, a + 1 + rng.gen_range(0..100))
+                } else {
+                    (rng.gen_range(0..p), rng.gen_range(0..p))
+                }
+            }
+        };
+        let b = if big && a == b { (a + 1) % p } else { b };
+        r1.push(a);
+        r2.push(b);
+    }
+    (r1, r2)
+}
+
+fn novf(s: &Sieve) -> Value {
+    json!(sieve::vhook::n_overflows(s).iter().map(|&(l, n, k)| json!({"log": l, "n": n.min(1 << 30), "slots": k})).collect::<Vec<_>>())
+}
+
+struct Plan {
+    thr: u8,
+    root: Option<u32>,
+    max_rep: usize,
+}
+
+/// sieves all blocks of `s`, logging a sample of the reports of each block
+fn sieve_all(out: &mut Out, rng: &mut StdRng, case: &str, s: &mut Sieve, r1: &[u32], r2: &[u32], plan: &Plan) -> bool {
+    let nb = s.nblocks;
+    for _ in 0..nb {
+        let b = s.blk_no;
+        let r = guard(|| {
+            s.sieve_block();
+            s.smooths(plan.thr, plan.root, [r1, r2])
+        });
+        let (idxs, facss) = match r {
+            Ok(x) => x,
+            Err(mut e) => {
+                e["op"] = json!("block");
+                e["case"] = json!(case);
+                e["b"] = json!(b);
+                out.ev(e);
+                return false;
+            }
+        };
+        let nrep = idxs.len();
+        // sample: first, last, and up to max_rep others
+        let mut pick: Vec<usize> = vec![];
+        if nrep > 0 {
+            pick.push(0);
+            pick.push(nrep - 1);
+            for _ in 0..plan.max_rep {
+                pick.push(rng.gen_range(0..nrep));
+            }
+            pick.sort();
+            pick.dedup();
+        }
+        let reports: Vec<Value> = pick.iter().map(|&j| json!([idxs[j], facss[j]])).collect();
+        out.ev(json!({"op": "block", "case": case, "b": b, "thr": plan.thr, "root": plan.root.map(|x| x as i64).unwrap_or(-1).max(0),
+                      "hasroot": plan.root.is_some(), "nrep": nrep, "reports": reports, "offset": di64(s.offset)}));
+        s.next_block();
+    }
+    true
+}
+
+#[allow(clippy::too_many_arguments)]
+fn new_sieve<'a>(
+    out: &mut Out,
+    case: &str,
+    fb: &'a FBase,
+    r1: &[u32],
+    r2: &[u32],
+    nblocks: usize,
+    offset: i64,
+    rec: Option<SieveRecycle>,
+    kind: &str,
+) -> Option<Sieve<'a>> {
+    let recycled = rec.is_some();
+    match guard(|| Sieve::new(offset, nblocks, fb, [r1, r2], rec)) {
+        Ok(s) => {
+            out.ev(json!({"op": "new", "case": case, "r1": r1, "r2": r2, "nblocks": nblocks, "offset": di64(offset),
+                          "recycled": recycled, "roots": kind, "novf": novf(&s)}));
+            Some(s)
+        }
+        Err(mut e) => {
+            e["op"] = json!("new");
+            e["case"] = json!(case);
+            e["roots"] = json!(kind);
+            out.ev(e);
+            None
+        }
+    }
+}
+
+fn kind_name(k: Roots) -> &'static str {
+    match k {
+        Roots::Real => "real",
+        Roots::Zero => "zero",
+        Roots::Top => "top",
+        Roots::Single => "single",
+        Roots::Random => "random",
+        Roots::Crowd => "crowd",
+    }
+}
+
+pub fn run(args: &Args) -> i32 {
+    let seed = arg_u64(args, "seed", 1);
+    let thorough = arg_str(args, "tier", "quick") == "thorough";
+    let mut out = Out::create(arg_str(args, "out", "trace.ndjson"));
+    let mut rng = rng_for(seed, "c13");
+    // factor base sizes: fewer than 16 primes, then largest prime just across 2^13, 2^15, 2^16 (2^19 thorough)
+    let mut sizes: Vec<(u32, usize)> = vec![(8, 60), (560, 60), (1850, 40), (3400, 25)];
+    if thorough {
+        sizes = vec![(8, 60), (16, 60), (560, 60), (1850, 40), (3400, 30), (23000, 5)];
+    }
+    for (fi, &(fbsize, max_rep)) in sizes.iter().enumerate() {
+        let n = rand_bits(&mut rng, 120) | Uint::ONE;
+        let fb = FBase::new(Int::cast_from(n), fbsize);
+        let mut ci = 0;
+        let mut newcase = |out: &mut Out, what: &str| -> String {
+            ci += 1;
+            let case = format!("fb{}/{}/{}", fbsize, ci, what);
+            out.ev(json!({"op": "fb", "case": case, "primes": fb.primes, "size": fbsize, "bound": fb.bound(),
+                          "check": if fb.len() > 5000 { "sample" } else { "all" }}));
+            case
+        };
+        // 1. fresh sieves: every root shape x interval lengths x thresholds
+        let shapes = [Roots::Real, Roots::Zero, Roots::Top, Roots::Single, Roots::Random, Roots::Crowd];
+        for (ki, &kind) in shapes.iter().enumerate() {
+            let nbs: Vec<usize> = match (thorough, kind) {
+                (_, Roots::Real) => vec![1, 2, 3, 8],
+                (true, _) => vec![1, 3],
+                (false, _) => vec![[1, 2, 3][(ki + fi) % 3]],
+            };
+            for nblocks in nbs {
+                let case = newcase(&mut out, kind_name(kind));
+                let (r1, r2) = make_roots(&mut rng, &fb, kind);
+                let offset = if rng.gen_bool(0.5) { -((nblocks * BLOCK_SIZE) as i64) / 2 } else { 0 };
+                if let Some(mut s) = new_sieve(&mut out, &case, &fb, &r1, &r2, nblocks, offset, None, kind_name(kind)) {
+                    // low threshold: many reports; with and without the root compensation
+                    let thr = [24u8, 40, 60][rng.gen_range(0..3)];
+                    let root = if rng.gen_bool(0.4) { Some(rng.gen_range(0..(nblocks * BLOCK_SIZE / 2) as u32)) } else { None };
+                    sieve_all(&mut out, &mut rng, &case, &mut s, &r1, &r2, &Plan { thr, root, max_rep });
+                }
+            }
+        }
+        // 2. recycled state across 4 polynomials with different root shapes (same base, same length)
+        for nblocks in if thorough { vec![1usize, 2, 4] } else { vec![2usize] } {
+            let case = newcase(&mut out, "recycle");
+            let mut rec: Option<SieveRecycle> = None;
+            for kind in [Roots::Crowd, Roots::Real, Roots::Random, Roots::Real, Roots::Top] {
+                let (r1, r2) = make_roots(&mut rng, &fb, kind);
+                let offset = -((nblocks * BLOCK_SIZE) as i64) / 2;
+                match new_sieve(&mut out, &case, &fb, &r1, &r2, nblocks, offset, rec.take(), kind_name(kind)) {
+                    Some(mut s) => {
+                        sieve_all(&mut out, &mut rng, &case, &mut s, &r1, &r2, &Plan { thr: 36, root: None, max_rep });
+                        rec = Some(s.recycle());
+                    }
+                    None => break,
+                }
+            }
+        }
+        // 3. classical sieve: rehash after shifting the roots by one large block, several times
+        {
+            let nblocks = 2usize;
+            let case = newcase(&mut out, "rehash");
+            let (mut r1, mut r2) = make_roots(&mut rng, &fb, Roots::Real);
+            if let Some(mut s) = new_sieve(&mut out, &case, &fb, &r1, &r2, nblocks, 0, None, "real") {
+                for round in 0..3 {
+                    if round > 0 {
+                        // on the shifted interval x + L the roots are r - L mod p
+                        let l = (nblocks * BLOCK_SIZE) as u64;
+                        for i in 0..fb.len() {
+                            let p = fb.p(i) as u64;
+                            r1[i] = ((r1[i] as u64 + p - l % p) % p) as u32;
+                            r2[i] = ((r2[i] as u64 + p - l % p) % p) as u32;
+                        }
+                        match guard(|| s.rehash([&r1[..], &r2[..]])) {
+                            Ok(_) => out.ev(json!({"op": "rehash", "case": case, "r1": r1, "r2": r2, "novf": novf(&s)})),
+                            Err(mut e) => {
+                                e["op"] = json!("rehash");
+                                e["case"] = json!(case);
+                                out.ev(e);
+                                break;
+                            }
+                        }
+                    }
+                    if !sieve_all(&mut out, &mut rng, &case, &mut s, &r1, &r2, &Plan { thr: 40, root: None, max_rep }) {
+                        break;
+                    }
+                }
+            }
+        }
+    }
+    let n = out.finish();
+    println!("{}", json!({"events": n}));
+    0
 }
